@@ -102,8 +102,8 @@ def generate(X):
     if empty is None:
         raise ValueError("parse_unyt_expr: no replacement for the empty string")
     for a, _b in reps:
-        if len(a) != 1:
-            raise ValueError("rewrite of a multi-character pattern")
+        if len(a) < 1:
+            raise ValueError("rewrite of an empty pattern")
 
     L = X.lstr
 
@@ -118,11 +118,11 @@ def generate(X):
         + "/-- NAME tokens left alone that are sympy classes (Symbol, Integer, Float, Rational) -/\n"
         + "def parseGlobalTypes : List String := [" + ", ".join(L(k) for k in types) + "]\n\n"
         + "/-- `unit_expr.replace(a, b)` of parse_unyt_expr, in order -/\n"
-        + "def parseRewrites : List (Char × String) := [" + ", ".join(f"(Char.ofNat {ord(a)}, {L(b)})" for a, b in reps) + "]\n\n"
+        + "def parseRewrites : List (String × String) := [" + ", ".join(f"({L(a)}, {L(b)})" for a, b in reps) + "]\n\n"
         + "/-- the same tables as code points (`String.toList` is very slow in the kernel) -/\n"
         + "def parseGlobalFnCodes : List (List Nat) := [" + ", ".join(C(k) for k in fns) + "]\n"
         + "def parseGlobalTypeCodes : List (List Nat) := [" + ", ".join(C(k) for k in types) + "]\n"
-        + "def parseRewriteCodes : List (Nat × List Nat) := [" + ", ".join(f"({ord(a)}, {C(b)})" for a, b in reps) + "]\n"
+        + "def parseRewriteCodes : List (List Nat × List Nat) := [" + ", ".join(f"({C(a)}, {C(b)})" for a, b in reps) + "]\n"
         + f"def parseEmptyCodes : List Nat := {C(empty)}\n\n"
         + "/-- what the empty string is replaced by -/\n"
         + f"def parseEmpty : String := {L(empty)}\n\n"
